@@ -295,3 +295,14 @@ def sum_over(fn, ctx, container):
     from .paths import every_iteration
     ev = every_iteration(fn, shp["node"], j)
     return {"status": "ok", "loop": shp, "acc": j, "target": tk, "term": rhs, "zero": zero, "returned": returned, "filtered": ev is False}
+
+
+def no_early_exit(shp):
+    """True iff the loop has no truncating exit.  A `continue` in the body is a per-item filter: a rule that does not analyse the
+    filter condition cannot say whether every item is processed, so this raises AnalysisBroken (the instance becomes undecided)."""
+    from .facts import AnalysisBroken
+    if shp.get("exits"):
+        return False
+    if shp.get("continues"):
+        raise AnalysisBroken("the loop body contains `continue` (a per-item filter this rule does not analyse)")
+    return True
